@@ -193,6 +193,19 @@ class RowMetadata(Contract):
         q = ops.RDIV(W(text, font, size), width)
         return ops.py_int(q) + 1
 
+    def rendered_heading_rows(self, c, cols, k):
+        """heading rows _render_body / render emit before row k (unit RenderBody / RenderPage): at row 0 every non-divider level, at
+        a later row the non-divider levels from the first changed level down, none if no level changed"""
+        d = c.v["d"]
+        nd = [If(key_str(d, k, col) != lit("-----"), 1, 0) for col in cols]
+        changed = [Or(k == 0, key_str(d, k - 1, col) != key_str(d, k, col)) for col in cols]
+        total = IntVal(0)
+        for l in reversed(range(len(cols))):
+            # levels l.. are rendered iff some level <= l changed
+            upto = Or(*changed[:l + 1])
+            total = total + If(upto, nd[l], 0)
+        return total
+
     def chg(self, c, cols, k):
         d = c.v["d"]
         if not cols:
@@ -292,6 +305,11 @@ class RowMetadata(Contract):
                 "heading_rows_only_at_group_starts": lambda k: Implies(Select(cols["pageby_header_rows"], k) > 0, self.chg(c, pb, k) if pb else z3.BoolVal(False)),
                 "page_unassigned": lambda k: Select(cols["page"], k) == 0,
             }
+            if len(pb) >= 2:
+                # C03: the renderer shows ONE heading row per page_by level from the first level that changed downwards (dividers
+                # excluded); the budget of a group-start row has to cover all of them
+                parts["heading_budget_covers_every_heading_row_rendered_at_a_group_start(multi_level)"] = \
+                    lambda k: Select(cols["pageby_header_rows"], k) >= self.rendered_heading_rows(c, pb, k)
             for nm, f in parts.items():
                 cl["records." + nm] = ForAll([k], Implies(And(0 <= k, k < v.i), f(k)))
             return cl
